@@ -448,6 +448,8 @@ func (x *Exec) fNeg(a *smt.Term) *smt.Term {
 
 func (x *Exec) fCmp(op string, a, c *smt.Term) *smt.Term {
 	if !x.fp {
+		x.infFacts(a, c)
+		x.infFacts(c, a)
 		switch op {
 		case "==":
 			return x.b.Eq(a, c)
@@ -623,4 +625,34 @@ func (x *Exec) realDiv(a, c *smt.Term) *smt.Term {
 		x.axiom(x.b.Implies(x.b.Not(x.b.Eq(c, zero)), x.b.Eq(x.b.Mul(r, c), x.b.Real(big.NewRat(1, 1)))))
 	}
 	return x.b.Mul(a, r)
+}
+
+// infFacts (real model): when one side of a comparison is (or may be, through
+// ite) the symbolic +-infinity constant, the other side, if it is not itself
+// infinite, lies strictly between -inf and +inf.
+func (x *Exec) infFacts(a, other *smt.Term) {
+	if !x.ufDecl["infax"] || other.Bound || a.Bound {
+		return
+	}
+	if !x.mentionsInfLeaf(a, 0) || x.mentionsInfLeaf(other, 0) {
+		return
+	}
+	inf := x.b.Const("math_inf", "Real")
+	x.axiom(x.b.And(x.b.Cmp("<", other, inf), x.b.Cmp("<", x.b.Neg(inf), other)))
+}
+
+func (x *Exec) mentionsInfLeaf(t *smt.Term, depth int) bool {
+	if depth > 6 {
+		return false
+	}
+	if t.Op == "math_inf" {
+		return true
+	}
+	if t.Op == "-" && len(t.Args) == 1 {
+		return x.mentionsInfLeaf(t.Args[0], depth+1)
+	}
+	if t.Op == "ite" {
+		return x.mentionsInfLeaf(t.Args[1], depth+1) || x.mentionsInfLeaf(t.Args[2], depth+1)
+	}
+	return false
 }
